@@ -74,6 +74,9 @@ class Check:
                 elif r["prop"] == "C04" and self.prop != "C04":
                     self.extra["aborts_seen_(C04)"] = self.extra.get("aborts_seen_(C04)", 0) + 1
             elif t in ("hang", "crash"):
+                if t == "hang" and self.prop == "C04" and self._only_slow(r, tasks, props, vh):
+                    self.extra["slow_cases_under_load"] = self.extra.get("slow_cases_under_load", 0) + 1
+                    continue
                 if self.prop == "C04":
                     self.add_violation({"prop": "C04", "clause": t, "detail": f"{t} (no progress / process died)", "case": r.get("case") or {"label": str(r.get("index")), "suite": r.get("suite")}})
                 else:
@@ -94,6 +97,22 @@ class Check:
         if chosen:
             self.validate_sessions(chosen, name, props)
         return rows
+
+    def _only_slow(self, row, tasks, props, vh):
+        """A case that made no progress within the time limit is run again alone with a limit 60 times as long (a busy machine
+        slows everything down): only a case that still does not finish is a hang."""
+        case = row.get("case") or {}
+        if not case.get("text"):
+            return False
+        t0 = next((t for t in tasks if t.get("id") == row.get("task")), None)
+        tf = os.path.join(WORK, f"{self.prop}_recheck_{row.get('task')}_{row.get('index')}.ndjson")
+        write_ndjson(tf, [{"text": case["text"], "wf": False, "label": case.get("label", "recheck")}])
+        task = {"suite": "texts", "params": {"path": tf}, "start": 0, "end": 1, "props": props, "cfgs": (t0 or {}).get("cfgs", "six")}
+        try:
+            rows = pool([task], f"{self.prop}_recheck", procs=1, timeout_ms=120000, vh=vh)
+        except Exception:
+            return False
+        return not any(x.get("t") in ("hang", "crash") for x in rows) and any(x.get("t") == "done" for x in rows)
 
     def validate_sessions(self, sessions, name, props):
         # the sessions are independent (each starts with a Reset event): they are cut into chunks of comparable size, each
@@ -161,7 +180,15 @@ class Check:
             if s.get("flagged"):
                 rust_mine = [v for v in self.violations + self.known_list if v.get("index") == s.get("index") and v.get("task") == s.get("task")]
                 if rust_mine and not tv:
-                    self.tool_errors.append(f"monitor disagreement: harness flagged {self.prop} on {s.get('label')} but TLC did not confirm it")
+                    # TLC is the judge: what the fast monitor flags and the specification's predicate does not is no verdict
+                    self.tool_errors.append(f"monitor disagreement: harness flagged {self.prop} on {s.get('label')} ({rust_mine[0].get('clause')}) but TLC did not confirm it")
+                    for v in rust_mine:
+                        if v in self.violations:
+                            self.violations.remove(v)
+                            self.extra["violations_total"] = max(0, self.extra.get("violations_total", 1) - 1)
+                        if v in self.known_list:
+                            self.known_list.remove(v)
+                    continue
                 for v in rust_mine:
                     v["confirmed_by_tlc"] = bool(tv)
             elif tv:
